@@ -204,3 +204,9 @@ def _via_command(obs, rows, cols, sel):
     dc, dr, dsel, problems = decode(code)
     if problems or (dc, dr) != (cols, rows) or dsel != sorted(sel):
         obs.bad("C12/command-selection", f"{rows}x{cols} wells {wells}: command selection {code!r} decodes to {dc}x{dr} {dsel} {problems}")
+
+
+def extra_campaign(tier, seed, shard, nshards, st, known):
+    from vf.fuzzrun import campaign
+
+    campaign(PID, tier, seed, shard, nshards, st, known, runs=20000, seeds_corpus=[b"\x08\x0c\xff\x00\x81", b"\x02\x03\x2a"])
